@@ -161,7 +161,7 @@ def r8_guards(body, log, dropped_fields=()):
         g, f = m.group(1), m.group(2)
         log.append(f"R8 guard alias `{g}` -> self.{f} (lock erased)")
         body = body.replace(m.group(0), '', 1)
-        body = re.sub(r'(?<![\w.])' + re.escape(g) + r'\.', f'self.{f}.', body)
+        body = re.sub(r'(?<![\w.])' + re.escape(g) + r'(\s*)\.(?!\.)', lambda mm: f'self.{f}' + mm.group(1) + '.', body)
         body = re.sub(r'&mut ' + re.escape(g) + r'\b', f'&mut self.{f}', body)
         body = re.sub(r'&' + re.escape(g) + r'\b(?!\.)', f'&self.{f}', body)
         body = re.sub(r'\*' + re.escape(g) + r'\b(?!\.)', f'self.{f}', body)
@@ -500,6 +500,19 @@ def extract_fn(repo, fnspec):
                               include_end=d.get('include_end', 'true') != 'false')
         elif k == 'subst':
             body = subst(body, d['from'], d['to'], log, d.get('rule', 'subst'), d.get('count', 1), regex=bool(d.get('regex')))
+        elif k == 'insert':
+            anchor = d.get('after') or d.get('before')
+            n = body.count(anchor)
+            if n != 1:
+                raise ExtractError(f"ghost-insert anchor lost: {anchor!r} matched {n}x")
+            pos = body.index(anchor)
+            if d.get('after'):
+                pos += len(anchor)
+                body = body[:pos] + '\n' + d['text'] + body[pos:]
+            else:
+                ls = body.rfind('\n', 0, pos) + 1
+                body = body[:ls] + d['text'] + '\n' + body[ls:]
+            log.append(f"ghost text inserted {'after' if d.get('after') else 'before'} `{anchor}`")
     if fnspec.get('generics'):
         for pair in fnspec['generics'].split(','):
             t, ty = pair.split(':')
